@@ -860,6 +860,9 @@ func unpackCorpus(arena string) []*UCase {
 	mk := func(es ...UEntry) *UCase {
 		return &UCase{Dst: "p/q/dst", Fault: "none", Entries: es, Init: baseInit()}
 	}
+	mkAllow := func(allow []string, es ...UEntry) *UCase {
+		return &UCase{Dst: "p/q/dst", Fault: "none", Entries: es, Init: baseInit(), Allow: allow}
+	}
 	mkDst := func(dst string, es ...UEntry) *UCase {
 		return &UCase{Dst: dst, Fault: "none", Entries: es, Init: baseInit()}
 	}
@@ -905,6 +908,12 @@ func unpackCorpus(arena string) []*UCase {
 		// spells out dst's own absolute path (seed C04-b: the link judged at "/a/link", not at dst/a/link)
 		mk(D("a/", 0755), L("//a/link", "../.."+arena+"/p/q/dst/inner")),
 		mk(L("//link", ".."+arena+"/p/q/dst/inner")),
+		// an absolute target that passes through an allow-listed directory and out again with '..': the
+		// cleaned target lies in dst and is not allow-listed (seed C04-f: the allow-list was asked about the
+		// raw target); with and without a later entry through the link
+		mkAllow([]string{arena + "/p/q/dstx"}, L("cfg", arena+"/p/q/dstx/../dst/inner")),
+		mkAllow([]string{arena + "/p/q/dstx"}, D("inner/", 0755), L("cfg", arena+"/p/q/dstx/../dst/inner"), F("cfg/x", "1")),
+		mkAllow([]string{arena + "/p/q/dstx/"}, L("d/cfg", arena+"/p/q/dstx/sub/../../dst-evil/x")),
 		// a read-only earlier version that is longer than the later one (seed C15-c; bites unprivileged)
 		mk(Fm("a", "first version of a, the long one", 0400), F("a", "v2")),
 		mk(D("d/", 0755), Fm("d/a", "first version of a, the long one", 0444), Fm("d/a", "v2", 0400), F("d/a", "3")),
@@ -964,6 +973,9 @@ func init() {
 				// corpus cases mention arena paths of u000000: rewrite
 				for k := range jobs[i].c.Entries {
 					jobs[i].c.Entries[k].Link = strings.Replace(jobs[i].c.Entries[k].Link, mkArena(0), jobs[i].arena, 1)
+				}
+				for k := range jobs[i].c.Allow {
+					jobs[i].c.Allow[k] = strings.Replace(jobs[i].c.Allow[k], mkArena(0), jobs[i].arena, 1)
 				}
 			}
 		}
